@@ -158,10 +158,10 @@ RScript(vs, sd, t, n, pending, last, macro, atseen) ==
     ELSE IF pending # <<>> THEN
         LET p == Head(pending)
             c0 == p.c
-            c == IF c0.k = "op" /\ c0.op = "c" /\ ~ViCmd(vs, c0).ok THEN [c0 EXCEPT !.op = "d", !.keys = <<>>] ELSE c0
+            c == IF c0.k = "op" /\ c0.op \in {"c", "!"} /\ ~ViCmd(vs, c0).ok THEN [c0 EXCEPT !.op = "d", !.keys = <<>>] ELSE c0
             v1 == ViCmd(vs, c)
             (* a change whose target fails leaves its text in the queue: the keys would be read as commands; such queues are not generated *)
-            bad == c0.k = "op" /\ c0.op = "c" /\ ~ViCmd(vs, c0).ok /\ ~p.typed
+            bad == c0.k = "op" /\ c0.op \in {"c", "!"} /\ ~ViCmd(vs, c0).ok /\ ~p.typed      \* (likewise the command line of a filter)
         IN IF bad THEN <<[keys |-> <<>>, xkeys |-> <<>>, kind |-> "cut", sub |-> "cut", queued |-> 0, exp |-> Proj(vs), thm |-> 1]>>     \* the harness drops the repeat that led here
            ELSE <<[keys |-> IF p.typed THEN p.tkeys ELSE <<>>, xkeys |-> IF p.typed THEN p.tkeys ELSE Keys(c), kind |-> c.k, sub |-> SubOf(c),
                    queued |-> IF p.typed THEN 0 ELSE 1, exp |-> Proj(v1), thm |-> IF Thm(vs, c, v1) THEN 1 ELSE 0]>>
